@@ -47,7 +47,8 @@ CHECKS = {
         "of exposed pins with complex amplitudes in amplitude and power mode, compares the matrix and the SET of columns with the model; "
         "two further streams declare the monitors only after an earlier solve and re-read a result's monitor table after later solves "
         "with another parameter value."
-        " Further streams: multi-mode circuits (expanded blocks wired by connect_all, one column pair per (pin, mode)) and pins exposed under two names with the excitation given through either. A sweep stream sweeps a phase shifter inside the circuit (second parameter scalar / length-1): row k of the monitor table and slice k of the external matrix against the model of point k, parameter columns included. Half of the results are first asked about the same pins with other amplitudes and in the other mode.",
+        " Further streams: multi-mode circuits (expanded blocks wired by connect_all, one column pair per (pin, mode)) and pins exposed under two names with the excitation given through either. A sweep stream sweeps a phase shifter inside the circuit (second parameter scalar / length-1): row k of the monitor table and slice k of the external matrix against the model of point k, parameter columns included. Half of the results are first asked about the same pins with other amplitudes and in the other mode."
+        " A quarter of the monitor cases place un-monitored components as sub-solvers of their own and flatten the circuit after the monitors are declared.",
    note="Trusted: Coq kernel + vm_compute; Bignums primitives for the executed instance; model Monitor.v tied by sampled correspondence; "
         "harness. Sweeps of monitored circuits reduce to the per-point statement (C04). Follows the fixed code (F25, F07).",
    technique="Coq proof (uniqueness of interface waves; two-group hierarchy) + vm_compute correspondence incl. late monitors and re-reads", design="§5 C10"),
@@ -90,7 +91,8 @@ CHECKS = {
         "readings with the model's history-free value (spy leaves reveal every key they receive), and compares a fingerprint of every "
         "solver's structures, connections, exposed pins, renamings and defaults around each call. Monitor read-outs of earlier results are "
         "re-read in the C10 check."
-        " The histories include twins and replaced defaults; a further stream re-reads an earlier result's monitor read-out after the solver was solved again. A third stream builds the same circuit again from fresh objects AFTER earlier solves (incl. blocks created without a parameter dictionary) and requires the model's answer for the defaults. Two further streams: every library block solved several times in a row on one object (each argument changed in turn) against freshly built blocks; hierarchies whose sub-solver is edited between two solves of the parent. A sixth stream overwrites the caller's sweep buffer right after a swept solve (the result's tables keep the solved values).",
+        " The histories include twins and replaced defaults; a further stream re-reads an earlier result's monitor read-out after the solver was solved again. A third stream builds the same circuit again from fresh objects AFTER earlier solves (incl. blocks created without a parameter dictionary) and requires the model's answer for the defaults. Two further streams: every library block solved several times in a row on one object (each argument changed in turn) against freshly built blocks; hierarchies whose sub-solver is edited between two solves of the parent. A sixth stream overwrites the caller's sweep buffer right after a swept solve (the result's tables keep the solved values)."
+        " A further stream (shared_later) solves a library block OBJECT inside circuit A (or a shallow copy of A) with explicit, swept values and then places it in circuit B built afterwards / solves the original: the later answer must be that of fresh objects.",
    note="Trusted: Coq kernel + vm_compute; model Params.v tied by sampled correspondence; harness. The immutability of returned objects "
         "is an observation over the histories run, not a theorem. Follows the fixed code (F05).",
    technique="Coq theorems (history-freedom of the retained state) + vm_compute correspondence over solve histories with results kept alive", design="§5 C06"),
@@ -207,7 +209,8 @@ CHECKS = {
         "same printable name make the name table refuse (for all pin lists); an accepted table resolves every name to exactly its pin; renamed "
         "pins are addressable by the new names. The tie replays histories with 30 % invalid calls by Pin object and by name on /repo, "
         "comparing ok/error and the observable state after every call and the final solve, and random pin-name tables with renamings "
-        "(swaps, chains, collisions) through Model.pin / Structure.pin. Renamings include ascending renumberings and swaps, after which every renamed pin must still address its own port; solver parameter defaults are part of the atomicity observation (a rejected add must not reset them). Model.put is addressed by Pin OBJECTS: own pins and foreign pins that merely print like an own pin; accepted iff the object is one of the model's pins (decided in Coq by pin_eqb), a refusal leaves the link tables untouched. On every run harness/translate_names.py also reads Pin (it must remain a frozen dataclass over (basename, mode_name) without hand-written equality or hash), Pin.name, Model.update_pins and Model.pin_mapping from the CURRENT source and coq/templates/NamesSrcProof.v proves them equal to Names.pin_name / update_pins / update_pins o rename_pins for all pin lists and renamings (3 theorems, closed under the global context). A placed structure's name table is read, the structure loses a pin (its neighbour is removed), and the table is read again. Likewise harness/translate_wiring.py executes the CURRENT source of Solver.connect symbolically (which tests, in which order, what has been written when the call is refused) and coq/templates/WiringSrcProof.v proves it equal to Wiring.step s (Connect x y) for every solver state and every pair of pins (connect_src_is_step, closed). Look-alike Pin objects are also addressed to get_A / get_T / get_output of the solved model.",
+        "(swaps, chains, collisions) through Model.pin / Structure.pin. Renamings include ascending renumberings and swaps, after which every renamed pin must still address its own port; solver parameter defaults are part of the atomicity observation (a rejected add must not reset them). Model.put is addressed by Pin OBJECTS: own pins and foreign pins that merely print like an own pin; accepted iff the object is one of the model's pins (decided in Coq by pin_eqb), a refusal leaves the link tables untouched. On every run harness/translate_names.py also reads Pin (it must remain a frozen dataclass over (basename, mode_name) without hand-written equality or hash), Pin.name, Model.update_pins and Model.pin_mapping from the CURRENT source and coq/templates/NamesSrcProof.v proves them equal to Names.pin_name / update_pins / update_pins o rename_pins for all pin lists and renamings (3 theorems, closed under the global context). A placed structure's name table is read, the structure loses a pin (its neighbour is removed), and the table is read again. Likewise harness/translate_wiring.py executes the CURRENT source of Solver.connect symbolically (which tests, in which order, what has been written when the call is refused) and coq/templates/WiringSrcProof.v proves it equal to Wiring.step s (Connect x y) for every solver state and every pair of pins (connect_src_is_step, closed). Look-alike Pin objects are also addressed to get_A / get_T / get_output of the solved model."
+        " A quarter of the histories start from a solver CONSTRUCTED with their leading adds and links; exposures are made by pin name, by Pin object, through map_pins and through lk.putpin, and are preceded now and then by the same call with a pin name the structure does not have (must be refused without trace).",
    note="Trusted: Coq kernel + vm_compute; models Wiring.v/Names.v tied by sampled correspondence; harness. Follows the fixed code (F01, F10, F11, F26).",
    technique="Coq proof (invariant + atomicity for all histories; name tables for all pin lists) + vm_compute correspondence of histories with invalid calls + source-to-Gallina translation of the name-table routines proved equal to the model on every run", design="§5 C16, §8"),
  "C20": dict(
@@ -218,7 +221,8 @@ CHECKS = {
         "thousands of LAPACK inversions, CPython recursion/time limits. The check runs /repo at the stated sizes (cascades 1000 quick / "
         "2000 thorough, nesting 40 / 80, meshes 100 / 400 couplers, lossy reflective chains 200 / 500) under a time limit against the "
         "proven closed forms (computed exactly, compared inside Coq) and the theorem-derived oracles T^H T = I, T = T^T, passivity."
-        " Further streams: long lossy chains / deep lossy hierarchies compared in RELATIVE terms on the exact product (amplitudes down to 1e-40), coupler meshes against the product of their layer matrices, a 300-element sub-solver placed twice.",
+        " Further streams: long lossy chains / deep lossy hierarchies compared in RELATIVE terms on the exact product (amplitudes down to 1e-40), coupler meshes against the product of their layer matrices, a 300-element sub-solver placed twice."
+        " Large circuits are also given as a netlist to the Solver constructor (300 / 1500 elements) and with large placed parts flattened before the solve.",
    note="Trusted: Coq kernel + vm_compute; harness (builders, exact closed forms via fractions.Fraction). The runtime half is an "
         "observation at the sizes run, named as such in the evidence (coverage.partial = true).",
    technique="Coq proof of the exact-arithmetic half + execution of the implementation at scale against proven closed forms", design="§5 C20"),
